@@ -183,6 +183,10 @@ m('M109-submul-ignores-b', ['C08'], (Q, "\tdifference := p.SubExtensionNoReduce(
 
 m('M110-merkle-flags-anded', ['C12', 'C01'], (F, "\tmerkleCap variables.FriMerkleCap,\n\tproof *variables.FriMerkleProof,\n) {\n\tcurrentDigest := f.poseidonBN254Chip.HashOrNoop(leafData)", "\tmerkleCap variables.FriMerkleCap,\n\tproof *variables.FriMerkleProof,\n) {\n\tf.api.AssertIsEqual(f.merkleProofToCapMismatch(leafData, leafIndexBits, capIndexBits, merkleCap, proof), 0)\n}\n\nfunc (f *Chip) merkleProofToCapMismatch(\n\tleafData []gl.Variable,\n\tleafIndexBits []frontend.Variable,\n\tcapIndexBits []frontend.Variable,\n\tmerkleCap variables.FriMerkleCap,\n\tproof *variables.FriMerkleProof,\n) frontend.Variable {\n\tcurrentDigest := f.poseidonBN254Chip.HashOrNoop(leafData)"), (F, "\tf.api.AssertIsEqual(currentDigest, merkleCapEntry)\n}", "\treturn f.api.Sub(1, f.api.IsZero(f.api.Sub(currentDigest, merkleCapEntry)))\n}"), (F, "\tfor i := 0; i < len(initialMerkleCaps); i++ {\n\t\tevals := proof.EvalsProofs[i].Elements", "\tmismatch := frontend.Variable(0)\n\tfor i := 0; i < len(initialMerkleCaps); i++ {\n\t\tevals := proof.EvalsProofs[i].Elements"), (F, "\t\tf.verifyMerkleProofToCapWithCapIndex(evals, xIndexBits, capIndexBits, cap, &merkleProof)\n\t}\n}", "\t\tmismatch = f.api.And(mismatch, f.merkleProofToCapMismatch(evals, xIndexBits, capIndexBits, cap, &merkleProof))\n\t}\n\tf.api.AssertIsEqual(mismatch, 0)\n}"))
 
+# ---- hidden state (GS / CS), recover
+m('M113-fri-chip-cached-globally', ['C14', 'C13', 'C01'], (F, "\tposeidonBN254Chip := poseidon.NewBN254Chip(api)\n\treturn &Chip{", "\tif lastChip != nil && lastChip.api == api {\n\t\treturn lastChip\n\t}\n\tposeidonBN254Chip := poseidon.NewBN254Chip(api)\n\tlastChip = &Chip{"), (F, "\t\tgl:                gl.New(api),\n\t}\n}", "\t\tgl:                gl.New(api),\n\t}\n\treturn lastChip\n}\n\nvar lastChip *Chip"))
+m('M114-verify-recovers', ['C20'], (V, "func (c *VerifierChip) Verify(", "func swallow() {\n\t_ = recover()\n}\n\nfunc (c *VerifierChip) Verify("), (V, "\tc.rangeCheckProof(proof)\n", "\tdefer swallow()\n\tc.rangeCheckProof(proof)\n"))
+
 # ---- behaviour-preserving refactors: must stay silent on every property
 ALL = ['C01', 'C02', 'C03', 'C04', 'C05', 'C06', 'C07', 'C08', 'C09', 'C10', 'C11', 'C12', 'C13', 'C14', 'C15', 'C16', 'C17', 'C18', 'C19', 'C20']
 m('R02-inline-assertLeadingZeros', [], (F, "\tf.assertLeadingZeros(friChallenges.FriPowResponse, f.friParams.Config)\n", "\tf.gl.RangeCheckWithMaxBits(friChallenges.FriPowResponse, 64-f.friParams.Config.ProofOfWorkBits)\n"))
